@@ -345,12 +345,11 @@ def _run(ctx):
         dep_roots_home = dep_roots
     lps = [l for l in common.loops(P, f) if l["is_loop"]]
     tf = [(b, v, span) for (fn, b, i, adt, var, v, span) in common.message_sites(P) if fn.path == f.path and common.adt_short(adt) == "Cw20ExecuteMsg" and var == "TransferFrom"]
-    dl = None
-    zip_form = False
+    cands = []
     for l in lps:
         ads, kind, src = common.iter_chain(l["iter"])
         if [a for a, _ in ads] == ["enumerate"] and kind in ("iter_mut", "iter") and QP in set(ctx.roots(src)):
-            dl = l
+            cands.append((l, False))
         elif [a for a, _ in ads] == ["zip"] and kind in ("iter_mut", "iter") and QP in set(ctx.roots(src)):
             # `for (pool, deposit) in pools.iter_mut().zip(deposits.iter())`: position-wise pairing of the two arrays
             zv = ads[0][1]
@@ -359,20 +358,27 @@ def _run(ctx):
             except Exception:
                 continue
             if not ads2_ and kind2_ in ("iter", "into_iter") and "|".join(sorted(ctx.roots(src2_))) == dep_roots:
-                dl = l
-                zip_form = True
-    if dl is None:
-        r3.fail("C05.R3:loop", f.path, f.span, "no loop `for (i, pool) in pools.iter_mut().enumerate()` over all pool assets: unrecognised-idiom")
-    else:
-        item = dl["item_root"]
+                cands.append((l, True))
+
+    def loop_terms(l, zip_form):
+        item = l["item_root"]
         DEP = r"^A:array\[[^\]]*\]\[@%s\.0\]$" % re.escape(item)
         PEL = item + (".0" if zip_form else ".1")          # the pool element of this iteration
         if zip_form:
             DEP = r"^%s\.1$" % re.escape(item)            # the deposit element of the same iteration
-        lb = body.reachable_from(dl["some_edge"][1], cut_edges=(dl["none_edge"],))
-        if len(tf) != 1 or tf[0][0] not in lb:
+        lb = body.reachable_from(l["some_edge"][1], cut_edges=(l["none_edge"],))
+        return item, DEP, PEL, lb
+    dl = None
+    if not cands:
+        r3.fail("C05.R3:loop", f.path, f.span, "no loop `for (i, pool) in pools.iter_mut().enumerate()` over all pool assets: unrecognised-idiom")
+    else:
+        # the cw20 pull and the native adjustment may share one per-asset loop or each have their own
+        tl = [(l, zf) for l, zf in cands if len(tf) == 1 and tf[0][0] in loop_terms(l, zf)[3]]
+        if len(tf) != 1 or len(tl) != 1:
             r3.fail("C05.R3:transfer-from-count", f.path, f.span, "expected one TransferFrom construction inside the per-asset loop, found %d" % len(tf))
         else:
+            dl, zip_form = tl[0]
+            item, DEP, PEL, lb = loop_terms(dl, zip_form)
             b, v, span = tf[0]
             fld = dict(v[3])
             am = "|".join(sorted(ctx.roots(fld["amount"])))
@@ -393,18 +399,22 @@ def _run(ctx):
                 r3.site("cw20 pool asset i: TransferFrom{amount: deposits[i]} to pools[i]'s contract (owner/recipient: C07.R3)")
         # native: (*pool).amount = checked_sub(pool.amount, deposits[i])
         writes = []
-        for b, blk in enumerate(body.blocks):
-            if blk["cleanup"] or b not in lb:
-                continue
-            for i, st in enumerate(blk["stmts"]):
-                if st["k"] == "assign" and st["place"]["p"] and st["place"]["p"][0]["k"] == "deref" and "!x" not in st["span"]:
-                    base = "|".join(sorted(ctx.roots(P.val_local_in(f, body, (b, i), st["place"]["l"]))))
-                    if base == PEL:
-                        writes.append((b, i, st))
+        for l_, zf_ in cands:
+            item_, DEP_, PEL_, lb_ = loop_terms(l_, zf_)
+            for b, blk in enumerate(body.blocks):
+                if blk["cleanup"] or b not in lb_:
+                    continue
+                for i, st in enumerate(blk["stmts"]):
+                    if st["k"] == "assign" and st["place"]["p"] and st["place"]["p"][0]["k"] == "deref" and "!x" not in st["span"]:
+                        base = "|".join(sorted(ctx.roots(P.val_local_in(f, body, (b, i), st["place"]["l"]))))
+                        if base == PEL_:
+                            writes.append((b, i, st, l_, zf_))
         if len(writes) != 1 or [e.get("name") for e in writes[0][2]["place"]["p"][1:]] != ["amount"]:
             r3.fail("C05.R3:native-adjust", f.path, f.span, "expected exactly one in-place adjustment `pool.amount = ...` in the loop, found %d" % len(writes))
+            dl = dl or cands[0][0]
         else:
-            b, i, st = writes[0]
+            b, i, st, dl, zip_form = writes[0]
+            item, DEP, PEL, lb = loop_terms(dl, zip_form)
             val = P.val_rvalue(f, body, (b, i), st["rv"])
             subs = [x for x in common.walk(val) if x[0] == "call" and isinstance(x[3], str) and generic_path(x[3]).endswith("Uint128::checked_sub")]
             ok = len(subs) == 1 and set(ctx.roots(subs[0][4][0])) == {PEL + ".amount"} and re.match(DEP, "|".join(sorted(ctx.roots(subs[0][4][1]))))
